@@ -311,4 +311,159 @@ theorem reduceZ_groups_wf (zs : List (ZFld K)) (hpos : ∀ z ∈ zs, 0 < z.fld.a
   obtain ⟨z, hz, rfl⟩ := List.mem_map.mp hf
   exact Group.single_wf _ (hpos z hz)
 
+/-! ### totality of `reduce` / `reduceZ` from input-level conditions -/
+
+/-- indicator of "occupies exactly the origin pixel" -/
+def originW (f : Fld K) : Nat := if f.extent = ⟨0, 0, 0, 0⟩ then 1 else 0
+
+theorem sum_originW (fs : List (Fld K)) :
+    (fs.map originW).sum = (fs.filter fun f => decide (f.extent = ⟨0, 0, 0, 0⟩)).length := by
+  induction fs with
+  | nil => rfl
+  | cons f fs ih =>
+    by_cases h : f.extent = ⟨0, 0, 0, 0⟩
+    · simp only [List.map_cons, List.sum_cons, originW, h, if_true, List.filter_cons, decide_true, List.length_cons]
+      omega
+    · simp only [List.map_cons, List.sum_cons, originW, h, if_false, List.filter_cons, decide_false, Bool.false_eq_true]
+      omega
+
+theorem nat_le_sum_of_mem (l : List Nat) (x : Nat) (h : x ∈ l) : x ≤ l.sum := by
+  induction l with
+  | nil => cases h
+  | cons y ys ih =>
+    rcases List.mem_cons.mp h with h1 | h1
+    · subst h1; simp
+    · have := ih h1; simp only [List.sum_cons]; omega
+
+/-- positive-shape members of a collection whose `boundary` box is the origin pixel all occupy exactly the origin pixel -/
+theorem members_origin_of_box_origin (fs : List (Fld K)) (hpos : ∀ f ∈ fs, 0 < f.arr.s0 ∧ 0 < f.arr.s1)
+    (hb : boundaryL (fs.map Fld.extent) = ⟨0, 0, 0, 0⟩) : ∀ f ∈ fs, f.extent = ⟨0, 0, 0, 0⟩ := by
+  intro f hf
+  have h1 := boundary_contains fs f hf
+  simp only [hb] at h1
+  have h2 := f.extent_valid (hpos f hf)
+  cases he : f.extent with
+  | mk a b c d => rw [he] at h1 h2; simp only at h1 h2; simp only [Extent.mk.injEq]; omega
+
+/-- a well-formed group with at most one member on the origin pixel always has an output field -/
+theorem Group.out_isSome_of_origin_le_one [Add K] [Zero K] (g : Group K) (hg : g.wf)
+    (h : Group.weight originW g ≤ 1) : g.out.isSome = true := by
+  obtain ⟨fields, extent⟩ := g
+  rcases hg.ext with ⟨f, hf, _⟩ | ⟨hl, _⟩
+  · simp only at hf; subst hf; rfl
+  · simp only at hl
+    have hm : Group.out (K := K) ⟨fields, extent⟩ = mergeL fields := by
+      cases fields with
+      | nil => simp at hl
+      | cons a t =>
+        cases t with
+        | nil => simp at hl
+        | cons b t => simp only [Group.out]
+    rw [hm, mergeL_isSome_iff]
+    intro hb
+    have hall := members_origin_of_box_origin fields hg.pos hb
+    have : Group.weight originW (⟨fields, extent⟩ : Group K) = fields.length := by
+      simp only [Group.weight]
+      rw [sum_originW, List.filter_eq_self.mpr]
+      intro f hf; simp [hall f hf]
+    omega
+
+/-- **totality of `reduce`**: positive shapes and at most one input field occupying exactly the origin pixel -/
+theorem reduce_isSome_of_origin_le_one [Add K] [Zero K] (fs : List (Fld K))
+    (hpos : ∀ f ∈ fs, 0 < f.arr.s0 ∧ 0 < f.arr.s1)
+    (h1 : (fs.filter fun f => decide (f.extent = ⟨0, 0, 0, 0⟩)).length ≤ 1) : ∀ o ∈ reduce fs, o.isSome = true := by
+  intro o ho
+  rw [reduce_eq] at ho
+  obtain ⟨g, hg, rfl⟩ := List.mem_map.mp ho
+  have hwf : g.wf := by
+    refine disjoint_wf _ _ ?_ g hg
+    intro g' hg'
+    obtain ⟨f, hf, rfl⟩ := List.mem_map.mp hg'
+    exact Group.single_wf f (hpos f hf)
+  apply Group.out_isSome_of_origin_le_one g hwf
+  have htot := (disjoint_total (originW (K := K)) fs.length (fs.map Group.single)).trans (single_total originW fs)
+  rw [sum_originW] at htot
+  have := nat_le_sum_of_mem _ _ (List.mem_map_of_mem (f := Group.weight originW) hg)
+  omega
+
+/-- a field of more than one element never occupies exactly the origin pixel -/
+theorem extent_ne_origin_of_not_size1 (f : Fld K) (hpos : 0 < f.arr.s0 ∧ 0 < f.arr.s1) (h : f.size1 = false) :
+    f.extent ≠ ⟨0, 0, 0, 0⟩ := by
+  intro he
+  simp only [Fld.extent, arrayExtent_eq, Extent.mk.injEq] at he
+  have : f.size1 = true := by
+    simp only [Fld.size1, Bool.and_eq_true, decide_eq_true_eq]; omega
+  rw [h] at this; cases this
+
+/-- 0-d aware version: at most one input on the origin pixel, **or** every input on the origin pixel is 0-d -/
+theorem reduceZ_isSome_of_inputs [Add K] [Zero K] (zs : List (ZFld K))
+    (hpos : ∀ z ∈ zs, 0 < z.fld.arr.s0 ∧ 0 < z.fld.arr.s1)
+    (h : ((zs.map fun z => z.fld).filter fun f => decide (f.extent = ⟨0, 0, 0, 0⟩)).length ≤ 1 ∨
+         ∀ z ∈ zs, z.fld.extent = ⟨0, 0, 0, 0⟩ → z.zd = true) : ∀ o ∈ reduceZ zs, o.isSome = true := by
+  intro o ho
+  rw [reduceZ_eq] at ho
+  obtain ⟨g, hg, rfl⟩ := List.mem_map.mp ho
+  have hwf := reduceZ_groups_wf zs hpos g hg
+  rcases h with h | h
+  · -- the plain-array output answers, hence so does the 0-d aware one
+    have hmem : g.toG ∈ (disjointZ zs.length (zs.map GroupZ.single)).map GroupZ.toG := List.mem_map_of_mem hg
+    rw [reduceZ_groups_toG] at hmem
+    have hpos' : ∀ f ∈ (zs.map fun z => z.fld), 0 < f.arr.s0 ∧ 0 < f.arr.s1 := by
+      intro f hf; obtain ⟨z, hz, rfl⟩ := List.mem_map.mp hf; exact hpos z hz
+    have hs := reduce_isSome_of_origin_le_one _ hpos' h (g.toG.out) (by rw [reduce_eq]; exact List.mem_map_of_mem hmem)
+    cases hq : g.toG.out with
+    | none => rw [hq] at hs; cases hs
+    | some p =>
+      have := GroupZ.out_of_out g p hq
+      cases hz : g.out with
+      | none => rw [hz] at this; cases this
+      | some _ => rfl
+  · have hin : ∀ z ∈ g.fields, z ∈ zs := by
+      refine disjointZ_members zs.length (zs.map GroupZ.single) (fun z => z ∈ zs) ?_ g hg
+      intro g' hg' z hz'
+      obtain ⟨z0, hz0, rfl⟩ := List.mem_map.mp hg'
+      simp only [GroupZ.single, List.mem_singleton] at hz'
+      subst hz'; exact hz0
+    obtain ⟨fields, extent⟩ := g
+    cases fields with
+    | nil => simp only [GroupZ.out]; rw [mergeZ_isSome_iff]; right; rfl
+    | cons a t =>
+      cases t with
+      | nil => simp [GroupZ.out]
+      | cons b t =>
+        simp only [GroupZ.out]
+        rw [mergeZ_isSome_iff]
+        by_cases hb : boundaryL ((a :: b :: t).map fun z => z.fld.extent) = ⟨0, 0, 0, 0⟩
+        · right
+          rw [List.all_eq_true]
+          intro z hz
+          have hmm : ((a :: b :: t).map fun z => z.fld.extent) = ((a :: b :: t).map fun z => z.fld).map Fld.extent := by
+            rw [List.map_map]; rfl
+          have hall := members_origin_of_box_origin ((a :: b :: t).map fun z => z.fld)
+            (fun f hf => by obtain ⟨z', hz', rfl⟩ := List.mem_map.mp hf; exact hpos z' (hin z' hz')) (by rw [← hmm]; exact hb)
+          exact h z (hin z hz) (hall z.fld (List.mem_map_of_mem hz))
+        · left; exact hb
+
+/-! ### definitional restatements of the public `merge` / `overlap` models (not property theorems) -/
+
+/-- public `merge(a, b, enforce_overlap)`: refused exactly when overlap is enforced and the extents do not intersect;
+otherwise it is `_merge((a, b))`, hence (by `mergeZ_emb`) the sum of the two embeddings -/
+theorem mergePublic_eq [Add K] [Zero K] (a b : ZFld K) (enforce : Bool) :
+    mergePublic a b enforce =
+      if enforce = true ∧ intersect a.fld.extent b.fld.extent = false then none else mergeZ [a, b] := by
+  unfold mergePublic
+  cases enforce <;> cases intersect a.fld.extent b.fld.extent <;> simp
+
+/-- public `overlap` of exactly two fields is the extent test (`intersect_iff`: a common pixel exists) -/
+theorem overlapL_two (a b : Fld K) : overlapL [a, b] = intersect a.extent b.extent := rfl
+
+/-- public `overlap` of any other number of fields: true iff `reduce` leaves at most one field -/
+theorem overlapL_many [Add K] [Zero K] (fs : List (Fld K)) (h : fs.length ≠ 2) :
+    overlapL fs = decide ((reduce fs).length ≤ 1) := by
+  rw [reduce_eq, List.length_map]
+  unfold overlapL
+  split
+  · simp at h
+  · rfl
+
 end Lentil
